@@ -169,22 +169,53 @@ func c16(r *core.Run) {
 	// ---- D3 --------------------------------------------------------------
 	mfns := p.FuncsOfPkg("store/mockstore")
 	resF := core.Field{Struct: "store/mockstore.Store", Name: "Resources"}
-	okAll := true
-	n := 0
-	for _, ac := range core.FieldAccesses(mfns, func(f core.Field) bool { return f == resF }) {
-		n++
-		o := core.Outermost(ac.Fn)
+	// heldBy: fn is a method of one of the named transaction types, the
+	// configuration helper Add, or a private helper all of whose call sites are
+	// in such functions (the caller's lock is held while it runs).
+	var heldBy func(fn *ssa.Function, types []string, seen map[*ssa.Function]bool) bool
+	heldBy = func(fn *ssa.Function, tns []string, seen map[*ssa.Function]bool) bool {
+		o := core.Outermost(fn)
+		if seen[o] {
+			return true
+		}
+		seen[o] = true
 		recv := ""
 		if o.Signature.Recv() != nil {
 			recv = core.TypeName(o.Signature.Recv().Type())
 		}
-		if !(strings.HasSuffix(recv, "readTxn") || strings.HasSuffix(recv, "writeTxn") || o.Name() == "Add") {
+		for _, tn := range tns {
+			if strings.HasSuffix(recv, tn) {
+				return true
+			}
+		}
+		if o.Name() == "Add" && strings.HasSuffix(recv, "Store") {
+			return true
+		}
+		if (o.Object() != nil && o.Object().Exported()) || p.AddrTaken(o) {
+			return false
+		}
+		cs := p.CallersOf(o)
+		if len(cs) == 0 {
+			return false
+		}
+		for _, c := range cs {
+			if core.IsGo(c) || !heldBy(c.Parent(), tns, seen) {
+				return false
+			}
+		}
+		return true
+	}
+	okAll := true
+	n := 0
+	for _, ac := range core.FieldAccesses(mfns, func(f core.Field) bool { return f == resF }) {
+		n++
+		if !heldBy(ac.Fn, []string{"readTxn", "writeTxn"}, map[*ssa.Function]bool{}) {
 			okAll = false
 			r.Bad("D3", core.FuncName(ac.Fn), "access("+resF.String()+")-outside-transaction", p.InstrPos(ac.Instr), "the mock store's map is accessed outside a transaction method: no lock is held")
 		}
 	}
 	if okAll {
-		r.OK("D3", "store/mockstore", "map-only-in-transaction-methods", "-", fmt.Sprintf("%d accesses, all in readTxn/writeTxn methods or Add", n))
+		r.OK("D3", "store/mockstore", "map-only-in-transaction-methods", "-", fmt.Sprintf("%d accesses, all in readTxn/writeTxn methods (or their private helpers) or Add", n))
 	}
 	// writes only in writeTxn methods (exclusive lock)
 	wOK := true
@@ -192,12 +223,7 @@ func c16(r *core.Run) {
 		if !ac.Write {
 			continue
 		}
-		o := core.Outermost(ac.Fn)
-		recv := ""
-		if o.Signature.Recv() != nil {
-			recv = core.TypeName(o.Signature.Recv().Type())
-		}
-		if !(strings.HasSuffix(recv, "writeTxn") || o.Name() == "Add") {
+		if !heldBy(ac.Fn, []string{"writeTxn"}, map[*ssa.Function]bool{}) {
 			wOK = false
 			r.Bad("D3", core.FuncName(ac.Fn), "write("+resF.String()+")-outside-write-transaction", p.InstrPos(ac.Instr), "the map is written under a shared (read) lock")
 		}
